@@ -463,11 +463,17 @@ pub fn run(ctx: &Ctx) -> i32 {
     enumerate(ctx, &mut rep);
     run_cases(ctx, &mut rep, "sampled", ctx.cases(150_000, 5_000_000), case);
     run_cases(ctx, &mut rep, "id-wrap", ctx.cases(600, 20_000), case_wrap);
+    // the real daemon with peer-to-peer ports: its Pdelay_Req answered by the harness (one or two responders)
+    let workers = (ctx.threads as u64 / 2).clamp(2, 8);
+    let sum = crate::daemon::run_part(ctx, &mut rep, ctx.cases(4 * workers, 60 * workers), workers);
+    if let Some(why) = &sum.skipped {
+        println!("note: end-to-end daemon part skipped ({}); the other parts are unaffected", why);
+    }
     finish(
         Finish {
             ctx,
             level: "exploration",
-            rule: "a peer-to-peer port in each state in which the exchange runs (Listening, Master, Slave, Passive), recording filter; generated schedules over delay timer, request transmit timestamp, Pdelay_Resp / Pdelay_Resp_Follow_Up from responders R1, R2 (and R1's other port), one- or two-step, duplicated/omitted/reordered, stale ids, other requesters, late transmit timestamps of superseded requests, receipt/announce/sync timers, BMCA, clean exchanges; part id-wrap: the same after ~65530 complete request rounds plus, at a generated position, a crossing (request k, request k+1 before k's transmit timestamp, late timestamp of k, completion of k+1) with k = 65533..65537 mod 2^16; plus exhaustive enumeration of all schedules of length <= 6 (thorough 7) over a 7-symbol alphabet. Oracle: exact integer formula per (request, first responder); fault rules (2)-(5) of DESIGN.md C14. Non-trivial = two responders involved or >= 1 peer-delay measurement; distinct by schedule.",
+            rule: "a peer-to-peer port in each state in which the exchange runs (Listening, Master, Slave, Passive), recording filter; generated schedules over delay timer, request transmit timestamp, Pdelay_Resp / Pdelay_Resp_Follow_Up from responders R1, R2 (and R1's other port), one- or two-step, duplicated/omitted/reordered, stale ids, other requesters, late transmit timestamps of superseded requests, receipt/announce/sync timers, BMCA, clean exchanges; part id-wrap: the same after ~65530 complete request rounds plus, at a generated position, a crossing (request k, request k+1 before k's transmit timestamp, late timestamp of k, completion of k+1) with k = 65533..65537 mod 2^16; plus exhaustive enumeration of all schedules of length <= 6 (thorough 7) over a 7-symbol alphabet. part daemon: the real statime daemon with peer-to-peer ports in a private network namespace, its Pdelay_Req answered by the harness - 3-8 clean exchanges (one- or two-step, generated turnaround times, negative ones emulating a longer link) must give one measurement each whose value in the daemon's own log is ((t4-t1)-(t3-t2))/2 from the harness's kernel timestamps (-5..+300 us of link latency), then two responders to one request must make the port Faulty in the next observation and clean answers must clear it within four exchanges. Oracle: exact integer formula per (request, first responder); fault rules (2)-(5) of DESIGN.md C14. Non-trivial = two responders involved or >= 1 peer-delay measurement; distinct by schedule.",
             assumptions: vec!["halving tolerance 1 unit of 2^-32 ns".into(), "a port may also leave Faulty through the exchange that faulted it if the first responder completes it (not asserted either way)".into()],
             min_nontrivial: 100,
         },
@@ -482,6 +488,9 @@ pub fn replay(ctx: &Ctx, path: &str) -> i32 {
         let mut rep = Report::new();
         enumerate(ctx, &mut rep);
         return if rep.violations.is_empty() { println!("replay passed"); 0 } else { println!("VIOLATION property=C14 replay={}\n  {}\n  {}", path, rep.violations[0].0.sig, rep.violations[0].0.detail); 1 };
+    }
+    if v["part"].as_str() == Some("daemon") {
+        return crate::daemon::replay_part(ctx, path, 3);
     }
     if v["part"].as_str() == Some("id-wrap") {
         return replay_file(ctx, path, case_wrap);
